@@ -223,6 +223,78 @@ def run_schedule(schedule: Dict[int, int], max_reads: int = 40) -> dict:
     return outcome
 
 
+def inner_program(park: Park, a):
+    park.gate(1)
+    with M(("a", a)), M(("b", a)):
+        park.gate(2)
+
+
+def outer_program(park: Park):
+    for a in range(10 ** 9):
+        inner_program(park, a)
+
+
+def run_reentry(advance_at: int, gates: int) -> dict:
+    """The inspected frame RETURNS while it is being inspected and the same function is entered again (its new invocation takes
+    over the same slot of the thread's frame stack).  What inspect_frame then says about the first invocation's frame is about
+    that frame -- which has finished: an empty value stack, or a rejection -- never the other invocation's value stack."""
+    from stackscope import _lowlevel_cpython_311 as impl
+
+    park = Park()
+
+    def body():
+        try:
+            outer_program(park)
+        except SystemExit:
+            pass
+
+    t = threading.Thread(target=body, daemon=True)
+    t.start()
+    park.arrived.acquire()
+    f1 = sys._current_frames()[t.ident]
+    while f1 is not None and f1.f_code.co_name != "inner_program":
+        f1 = f1.f_back
+    code = impl.inspect_frame.__code__
+    reads = [0]
+
+    def local(frame, event, arg):
+        if event == "line":
+            text = linecache.getline(code.co_filename, frame.f_lineno)
+            if any(m in text for m in READ_MARKS):
+                if reads[0] == advance_at:
+                    park.advance(gates)
+                reads[0] += 1
+        return local
+
+    def tracer(frame, event, arg):
+        return local if frame.f_code is code else None
+
+    out: Dict[str, Any] = {"kind": "reentry", "advance_at": advance_at, "gates": gates}
+    sys.settrace(tracer)
+    try:
+        try:
+            d = impl.inspect_frame(f1)
+            out["outcome"] = "snapshot"
+            out["stack"] = [describe(o) for o in d.stack]
+            out["blocks"] = len(d.blocks)
+        except RuntimeError as e:
+            out["outcome"] = "inconsistent" if "consistent stack snapshot" in str(e) else f"RuntimeError {e}"
+        except Exception as e:
+            out["outcome"] = f"raised {type(e).__name__}: {e}"
+    finally:
+        sys.settrace(None)
+    cur = sys._current_frames().get(t.ident)
+    still = False
+    while cur is not None:
+        still = still or cur is f1
+        cur = cur.f_back
+    out["frame_still_running"] = still
+    park.stop = True
+    park.sem.release()
+    t.join(5)
+    return out
+
+
 def describe(o) -> str:
     if o is None:
         return "None"
@@ -237,6 +309,15 @@ def describe(o) -> str:
 def main():
     spec = json.loads(sys.stdin.read())
     for sched in spec["schedules"]:
+        if "reentry" in sched:
+            try:
+                r = run_reentry(int(sched["reentry"]), int(sched["gates"]))
+            except BaseException as e:
+                r = {"kind": f"worker-error {type(e).__name__}: {e}"}
+            r["schedule"] = sched
+            sys.stdout.write(json.dumps(r) + "\n")
+            sys.stdout.flush()
+            continue
         s = {int(k): v for k, v in sched.items()}
         try:
             r = run_schedule(s)
